@@ -127,6 +127,10 @@ class Model(object):
                     k = inline.expand_table_dispatch(tree, set(ref['__globals__']))
                     if k:
                         self.inlined.append((rel, 'table dispatch unfolded', [k]))
+                    # N30: new module-level constants written out where they are used
+                    cs = inline.inline_new_constants(tree, set(ref['__globals__']))
+                    if cs:
+                        self.inlined.append((rel, 'constants', cs))
                 if ref is not None and '__functions__' in ref:
                     # N11: helpers the reference tree does not have are expanded at their call sites (sa/inline.py)
                     n, names = inline.inline_new_helpers(tree, set(ref['__functions__']))
